@@ -25,7 +25,7 @@ func (c *RecvCase[T]) selectCase() reflect.SelectCase {
 func (c *RecvCase[T]) done(v reflect.Value, ok bool) {
 	c.Ok = ok
 	if ok {
-		c.Val = v.Interface().(T)
+		reflect.ValueOf(&c.Val).Elem().Set(v)
 	}
 }
 
